@@ -178,6 +178,13 @@ def r2_fit(ctx):
                 r_alloc = any(x[0] == 'call' and x[1].endswith('::checked_add') for x in walk(rr))
                 if (l_alloc and r_end and op == 'le') or (r_alloc and l_end and op == 'ge'):
                     fit = True
+        for a in atoms:
+            # `region.end_addr().checked_sub(alloc_end)` is Some  <=>  alloc_end <= region end
+            if (option_state(a) or ('', None))[0] == 'some':
+                c = peel_c(option_state(a)[1])
+                if c[0] == 'call' and c[1].endswith('::checked_sub') and len(c[2]) == 2 and _mentions_region_end(c[2][0]) and \
+                        any(x[0] == 'call' and x[1].endswith('::checked_add') for x in walk(c[2][1])):
+                    fit = True
         ctx.check(fit, 'fit-test', 'alloc_from_region accepts a region only if the aligned block ends at or before the region end', fr.where_path(path), [show_atom(a) for a in atoms if a[0] == 'cmp'])
         # remainder is 0 or >= size_of ListNode
         def _is_end(t):
@@ -186,6 +193,13 @@ def r2_fit(ctx):
             return any(x[0] == 'call' and x[1].endswith('::checked_add') for x in walk(t))
         rem = [a for a in atoms if a[0] == 'cmp' and (any(x[0] == 'bin' and x[1].startswith('Sub') for x in walk(a[2])) or
                                                       (a[1] == 'eq' and ((_is_end(a[2]) and _is_blockend(a[3])) or (_is_end(a[3]) and _is_blockend(a[2])))))]
+        # range form: `!(1..size_of::<ListNode>()).contains(&excess)` with excess = region end - block end
+        for a in atoms:
+            if a[0] == 'bool' and a[2] is False and a[1][0] == 'call' and a[1][1].endswith('Range::contains') and len(a[1][2]) == 2:
+                rg, x = peel_c(a[1][2][0]), a[1][2][1]
+                if rg[0] == 'agg' and len(rg[2]) == 2 and rg[2][0] == ('int', 1) and any(y[0] == 'call' and y[1].endswith('mem::size_of') for y in walk(rg[2][1])) and \
+                        any(y[0] == 'call' and (y[1].endswith('::checked_sub') or y[1].endswith('::sub')) for y in walk(x)) and _mentions_region_end(x):
+                    rem.append(a)
         ctx.check(len(rem) >= 1, 'remainder-test', 'a remainder that could not hold a free-list node is rejected', fr.where_path(path), [show_atom(a) for a in rem])
     # checked_add operand: alloc_start + size
     ca = [s for s in fr.calls() if s.name.endswith('::checked_add')]
